@@ -113,6 +113,13 @@ def run(ctx):
         n = rng.choice([0, 1, 2, 3, 4, 5, 7, 8, 9, 31, 33, rng.randint(0, 130)])
         rnd = rng.choice([0, 1, 2, 255, 256, 2 ** 31 - 1, rng.getrandbits(31)])
         judge_payload(ctx, bytes(rng.getrandbits(8) for _ in range(32)), rnd, gen_hashes(rng, n, rng.choice(STYLES)))
+    # the same predecessor and round with different operation lists, one after the other
+    for _ in range(ctx.pick(20, 300) // ctx.nshards + 1):
+        pred = bytes(rng.getrandbits(8) for _ in range(32))
+        rnd = rng.choice([0, 1, 7])
+        for n in (3, 0, 5, 3, 1):
+            ctx.count('payloads_on_the_same_predecessor_and_round')
+            judge_payload(ctx, pred, rnd, gen_hashes(rng, n, 'random'))
     ctx.require('operation_list_hash_calls', 50)
     ctx.require('operation_list_list_hash_calls', 20)
     ctx.require('block_payload_hash_calls', 20)
